@@ -15,9 +15,16 @@ def rng_for(seed, prop, index):
     return random.Random(int.from_bytes(h[:16], "big"))
 
 
+# Generator decisions added after tape-style replay files were stored are guarded by `tape.feature(name)`: a replay file
+# lists the features that existed when it was written, a stored tape is replayed with exactly those (the guarded
+# decisions are skipped without consuming a tape position), so old tapes keep denoting the same scenario.
+FEATURES = ["bam_clone_record", "bam_repeat_selection"]
+
+
 class Tape:
-    def __init__(self, rng=None, values=None):
+    def __init__(self, rng=None, values=None, features=None):
         assert (rng is None) != (values is None)
+        self._features = None if features is None else set(features)
         self._rng = rng
         self._values = list(values) if values is not None else None
         self._pos = 0
@@ -26,6 +33,10 @@ class Tape:
     @property
     def replaying(self):
         return self._values is not None
+
+    def feature(self, name):
+        assert name in FEATURES, name
+        return self._features is None or name in self._features
 
     def draw(self, n, label=""):
         """int in [0, n)"""
